@@ -9,7 +9,7 @@ CLAIMED = {
  "C04": ("trace validation with TLA+ equity oracle", "payout of every recorded whole close = margin + realised PnL - funding computed by TLC from raw state; bad-debt closes rejected; insurance-fund decrease bounded by recorded prepaid bad debt"),
  "C05": ("trace validation with TLA+ margin-ratio oracle", "margin ratio and free collateral recomputed by the specification's own operators (spot/15-min TWAP) on recorded raw state after every open/withdraw; leverage bounds; deposit/withdraw exactness"),
  "C06": ("trace validation with TLA+ liquidation-ratio oracle", "liquidations succeed only when the specification's liquidation ratio (spot/TWAP, oracle override at 10% spread) <= maintenance; payouts of full and partial liquidations recomputed"),
- "C10": ("trace validation (frame condition)", "every other trader's stored position (all fields, existence) unchanged by every recorded transaction except the named target of Liquidate; queries leave the storage digest unchanged"),
+ "C10": ("trace validation (frame condition on the storage records and on the engine's interface view) + bounded model Admin", "every other trader's stored position (all fields, existence) and the position the engine's own Position query answers for them unchanged by every recorded transaction except the named target of Liquidate - administration of every contract interleaved with trading (bounded model Admin, family c10adm), exactly flat books, address aliases; queries leave the storage digest unchanged"),
  "C12": ("trace validation (fee transfers)", "fee transfers to fund/pool recomputed from notional x ratio for opens, reversals, closes, partial closes; no fee on deposit/withdraw/funding/liquidation"),
  "C15": ("trace validation with TLA+ band oracle over ghost block-start reserves", "per-block band recomputed by the specification from the reserves recorded when the block began (ghost, not the stored snapshots); whole-vs-partial close decision recomputed; sub-second blocks, band-edge landings, closes with limits"),
  "C16": ("trace validation with ghost liquidation block", "restriction mode: ghost 'liquidated in this block' + stored block stamp decide must-fail / must-not-be-restricted"),
@@ -20,8 +20,8 @@ CLAIMED = {
  "C09": ("role matrix + trace validation with a ghost role map", "every privileged execute variant x 8 sender kinds (address arguments ranging over role holders), before and after role transfers, on three deployments (incl. vAMMs without insurance fund), executed on the real contracts; TLC checks ok => sender holds the role in the GHOST role map (what the deployment's messages and the successful transfers since established, not the stored configuration), failure => digest unchanged"),
  "C11": ("trace validation with TLA+ funding oracle", "schedule, premium fraction (vAMM TWAP - oracle TWAP recomputed by the specification), next funding time, vault<->fund transfer, and charging/checkpoint on trade, withdraw, close, reversal"),
  "C13": ("twin executions + TLA+ equivalence predicate", "the same history executed in lock-step on a cw20 and a native deployment, the native call attaching exactly what the cw20 call pulled; TLC compares results, positions, vAMM state and per-party balance deltas (Twin.tla); divergences matching the recorded findings F3 / F11 are reported as KNOWN-FINDING"),
- "C14": ("gate matrix + trace validation", "paused x open x registered x operation matrix with live positions, shutdown from every subset of already-closed vAMMs, random registry histories with membership queries"),
- "C19": ("TLA+ big-natural judgement of the real type's operation table", "every ordered operand pair over sign x 16 magnitudes up to 2^128-1: all operators, checked forms, predicates, display/parse/serde round trips evaluated on the real Integer and judged by TLC against BigNat arithmetic"),
+ "C14": ("gate matrix + bounded models Gates / Admin + trace validation", "paused x open x registered x operation matrix with live positions (healthy and under-margined holders), shutdown from every subset of already-closed vAMMs, random registry histories with membership queries, every order of gate / registry / pointer operations and trades up to the depth bound"),
+ "C19": ("TLA+ big-natural judgement of the real type's operation table", "every ordered operand pair over sign x 16 magnitudes up to 2^128-1: all operators, checked forms, predicates, display/parse/serde round trips evaluated on the real Integer (each under catch_unwind: a panic is an observation) and judged by TLC against BigNat arithmetic"),
  "C20": ("configuration sequences + cap histories + trace validation", "random UpdateConfig sequences at boundary values on engine and vAMM, decimals check at registration, trades against changing caps and whitelist membership"),
 }
 NA = {
